@@ -842,12 +842,12 @@ func (t *tr) binop(x *ssa.BinOp, R string) {
 		e := fmt.Sprintf("(%s %s %s)", op, a, b)
 		if x.Op == token.MUL {
 			t.define(x, "Int", wrapMod(e, x.Type()))
-		} else if x.Op == token.ADD && t.own != nil && t.own.NoWrap && isUnsigned(x.Type()) {
+		} else if x.Op == token.ADD && t.assumesNoWrap() && isUnsigned(x.Type()) {
 			// stated assumption of this function's contract: the counter does not wrap around
 			n := t.define(x, "Int", e)
 			_, hi, _ := intRange(x.Type())
 			t.assume(R, fmt.Sprintf("(<= %s %s)", n, hi))
-			t.abstractf("ASSUMED: unsigned addition does not wrap (assume nowrap)")
+			t.abstractf("ASSUMED: unsigned addition does not wrap (assume nowrap; includes helper bodies translated in place)")
 		} else {
 			t.define(x, "Int", wrapAddSub(e, x.Type()))
 		}
@@ -1349,4 +1349,15 @@ func (t *tr) ret(x *ssa.Return, b *ssa.BasicBlock, R string, heaps map[string]st
 	if !t.own.Havoc {
 		t.frameObligations(heaps, R, fmt.Sprintf("return[%d]", idx), x.Pos(), nil)
 	}
+}
+
+// assumesNoWrap: the contract of the function under verification (for a helper body translated in place: of the function
+// it is inlined into) states `assume nowrap`.
+func (t *tr) assumesNoWrap() bool {
+	for a := t; a != nil; a = a.parent {
+		if a.own != nil && a.own.NoWrap {
+			return true
+		}
+	}
+	return false
 }
